@@ -131,6 +131,14 @@ template<int N> static void smat_inverse_case() {
     }, co);
 }
 
+// block QR (QR<static_matrix>): a second solve with computed = true reuses the stored factorisation (as BiCGStab(L) does with the scalar QR): concrete 2x2 blocks, symbolic right-hand sides
+static void block_qr_reuse_case(int nb, bool col_major) { hx::run_case(std::string("qr_block_reuse/")+std::to_string(nb)+"x"+std::to_string(nb)+(col_major?"/col":"/row"), [&]() { typedef amgcl::static_matrix<scalar,2,2> B2; typedef amgcl::static_matrix<scalar,2,1> V2; auto order = col_major ? amgcl::detail::col_major : amgcl::detail::row_major;
+    std::vector<B2> A(nb*nb); std::vector<std::vector<scalar>> D(2*nb,std::vector<scalar>(2*nb)); for (int I=0;I<nb;++I) for (int J=0;J<nb;++J) { B2 b; for (int r=0;r<2;++r) for (int c=0;c<2;++c) { double v = (I==J && r==c) ? 4.0+I+0.5*r : 0.25*(((I*5+J*3+r*2+c)%7)-3); b(r,c)=scalar(v); D[2*I+r][2*J+c]=scalar(v); } A[col_major ? J*nb+I : I*nb+J]=b; }
+    std::vector<B2> A1=A; std::vector<V2> f1(nb), f2(nb), x1(nb), x2(nb); for (int I=0;I<nb;++I) for (int r=0;r<2;++r) { f1[I](r)=var("f1_"+std::to_string(2*I+r),1.0+I+r); f2[I](r)=var("f2_"+std::to_string(2*I+r),-0.5+0.25*I-r); }
+    amgcl::detail::QR<B2> qr; qr.solve(nb,nb,A1.data(),f1.data(),x1.data(),order); qr.solve(nb,nb,A1.data(),f2.data(),x2.data(),order,true);
+    std::vector<scalar> g1, g2, r1, r2; for (int i=0;i<2*nb;++i) { scalar s1=0, s2=0; for (int j=0;j<2*nb;++j) { s1+=D[i][j]*x1[j/2](j%2); s2+=D[i][j]*x2[j/2](j%2); } g1.push_back(s1); g2.push_back(s2); r1.push_back(f1[i/2](i%2)); r2.push_back(f2[i/2](i%2)); }
+    hx::prove_eq_vec("block QR: first solve A x = f", g1, r1); hx::prove_eq_vec("block QR: second solve with computed = true reuses the factorisation: A x = f", g2, r2); }); }
+
 int main(int argc, char **argv) {
     hx::parse_args(argc,argv); bool T=hx::thorough(); hx::Rng rng(hx::args().seed);
     hx::encodes("amgcl::solver::skyline_lu<scalar>::skyline_lu / factorize / operator() (solver/skyline_lu.hpp) incl. reorder::cuthill_mckee<false>::get on the concrete pattern");
@@ -153,5 +161,6 @@ int main(int argc, char **argv) {
     for (int cm=0;cm<2;++cm) { qr_case(1,1,cm,-1); qr_case(2,1,cm,-1); qr_case(1,2,cm,-1); qr_case(3,1,cm,-1); qr_case(1,3,cm,-1); qr_case(4,1,cm,-1); qr_case(2,2,cm,0); qr_case(3,2,cm,0);
         qr_solve_case(1,1,cm); qr_solve_case(2,1,cm); qr_solve_case(3,1,cm); qr_solve_case(1,2,cm); qr_solve_case(1,3,cm);
         if (T) { qr_case(2,2,cm,-1); qr_solve_case(2,2,cm); } }
+    for (int cm=0;cm<2;++cm) { block_qr_reuse_case(1,cm); block_qr_reuse_case(2,cm); }
     return hx::finish();
 }
